@@ -261,6 +261,8 @@ def g_ref_case(rng):
     k = rng.randrange(n)
     order = list(range(n))
     rng.shuffle(order)
+    if rng.random() < 0.35:
+        return {"kind": "e2e_ref", "sub": "flowctor", "n": n, "k": k, "event_kind": "Finished", "events": [{"target": j} for j in order[: rng.choice([1, 2, n])]]}
     return {"kind": "e2e_ref", "sub": "flow", "n": n, "k": k, "event_kind": rng.choice(["Finished", "Finished", "Started"]), "events": [{"target": j} for j in order[: rng.choice([1, 2, n])]]}
 
 
@@ -309,8 +311,11 @@ _SM = None
 
 def worker_init():
     global _SM
+    import logging
+
     from nemoguardrails.colang.v2_x.runtime import statemachine as sm
 
+    logging.getLogger("nemoguardrails").setLevel(logging.CRITICAL)  # contained matching errors are logged with a traceback
     _SM = sm
 
 
@@ -402,6 +407,35 @@ class Recorder:
 
         self.orig = (sm.get_event_from_element, sm._evaluate_arguments, sm._compute_event_comparison_score)
         o_gefe, o_eval, o_cmp = self.orig
+        o_cfi = sm.create_flow_instance
+        self.orig_ms = sm._compute_event_matching_score
+        o_ms = self.orig_ms
+        self._in_ms = False
+        self._ms_ref = None
+
+        def w_ms(state, flow_state, head, event):
+            # the isinstance gate in front of the comparison: record (event, reference event, result)
+            self._in_ms, self._ms_ref = True, None
+            try:
+                r = o_ms(state, flow_state, head, event)
+            finally:
+                self._in_ms = False
+            try:
+                if self._ms_ref is not None:
+                    import copy
+
+                    seen = event if type(event).__name__ == "InternalEvent" else copy.deepcopy(event)
+                    sa = []
+                    uid = getattr(event, "action_uid", None)
+                    if uid is not None and uid in state.actions:
+                        sa = [[uid, [[k, vj.enc(v)] for k, v in state.actions[uid].start_event_arguments.items()]]]
+                    self.calls.append({"fn": "ms", "ev": self._enc_ev(seen), "ref": self._enc_ev(self._ms_ref), "start_args": sa,
+                                       "prio": None if not flow_state.priority else list(vj.dyadic(flow_state.priority)),
+                                       "rx": vj.rx_table([seen.arguments, [x for _, x in sa]]), "score": float(r)})
+            except Exception:  # noqa
+                self.skipped += 1
+            return r
+
 
         def w_eval(arguments, context):
             r = o_eval(arguments, context)
@@ -416,6 +450,8 @@ class Recorder:
                 res = o_gefe(state, flow_state, element)
             finally:
                 evals, self._evals = self._evals, outer
+            if self._in_ms and self._ms_ref is None:
+                self._ms_ref = res
             try:
                 if element["op"] == "match":
                     spec = element.spec
@@ -432,7 +468,10 @@ class Recorder:
                                 if "_return_value" in obj.context:
                                     st["return_value"] = vj.enc(obj.context["_return_value"])
                     elif spec.members is not None:
-                        if spec.spec_type == SpecType.ACTION and len(evals) == 2:
+                        if spec.spec_type == SpecType.FLOW and len(evals) == 1:
+                            tmp = o_cfi(state.flow_configs[spec.name], "", "", {})
+                            st = {"form": "flowCtor", "flow_id": spec.name, "param_defaults": enc_args(tmp.arguments), "member": spec.members[0]["name"], "args": enc_args(evals[0])}
+                        elif spec.spec_type == SpecType.ACTION and len(evals) == 2:
                             st = {"form": "actionCtor", "name": spec.name, "ctor_args": enc_args(evals[0]), "member": spec.members[0]["name"], "args": enc_args(evals[1])}
                     elif len(evals) == 1:
                         st = {"form": "bare", "name": spec.name, "is_lower": spec.name.islower(), "args": enc_args(evals[0])}
@@ -472,11 +511,13 @@ class Recorder:
             return r
 
         sm.get_event_from_element, sm._evaluate_arguments, sm._compute_event_comparison_score = w_gefe, w_eval, w_cmp
+        sm._compute_event_matching_score = w_ms
         return self
 
     def __exit__(self, *a):
         sm = self.sm
         sm.get_event_from_element, sm._evaluate_arguments, sm._compute_event_comparison_score = self.orig
+        sm._compute_event_matching_score = self.orig_ms
 
 
 def run_e2e_ref(case):
@@ -499,7 +540,10 @@ def run_e2e_ref(case):
         lines = ["flow child $x", "  match Done(id=$x)", "flow main"]
         for i in range(n):
             lines.append(f"  start child(x={i}) as $r{i}")
-        lines += [f"  match $r{k}.{case['event_kind']}()", "  send Hit()", "  match Never()"]
+        if case["sub"] == "flowctor":
+            lines += [f"  match child(x={k}).Finished()", "  send Hit()", "  match Never()"]
+        else:
+            lines += [f"  match $r{k}.{case['event_kind']}()", "  send Hit()", "  match Never()"]
     src = "\n".join(lines) + "\n"
     obs = {"src": src, "hits": []}
     rec = Recorder(sm)
@@ -586,6 +630,8 @@ def model_requests(case, obs):
         for c in obs.get("calls", []):
             if c["fn"] == "gefe":
                 reqs.append({"m": "C04.stmt", "stmt": c["stmt"]})
+            elif c["fn"] == "ms":
+                reqs.append({"m": "C04.event", "gate": True, "ev": c["ev"], "ref": c["ref"], "rx": c["rx"], "prio": c["prio"], "start_args": c["start_args"]})
             else:
                 reqs.append({"m": "C04.event", "ev": c["ev"], "ref": c["ref"], "rx": c["rx"], "prio": c["prio"], "start_args": c["start_args"]})
         return reqs
@@ -620,7 +666,8 @@ def compare_calls(obs, mouts):
             fake_obs = {"exc": c["exc"]} if "exc" in c else {"score": c["score"]}
             d = compare(fake_case, fake_obs, [m])
             if d:
-                return f"_compute_event_comparison_score (recorded in a run): {d}; event {c['ev']} ref {c['ref']}"
+                which = "_compute_event_matching_score" if c["fn"] == "ms" else "_compute_event_comparison_score"
+                return f"{which} (recorded in a run): {d}; event {c['ev']} ref {c['ref']}"
     return None
 
 
@@ -747,7 +794,7 @@ def has_reserved(r):
 def oracle_ref(case, obs):
     if "exc" in obs:
         return f"interpreter raised {obs['exc']} on an instance-reference program"
-    if case["sub"] == "flow" and case["event_kind"] == "Started":
+    if case["sub"] in ("flow", "flowctor") and case["event_kind"] == "Started":
         # every child has started when main reaches the match: the reference's own Started event is already past
         exp_hits = [False] * len(case["events"])
         if obs["hit_at_start"]:
@@ -855,7 +902,7 @@ def nontrivial(case, obs):
 def tags(case, obs):
     t = ["kind:" + case["kind"]]
     if case["kind"] == "e2e_ref":
-        forms = sorted(set("rec:" + (c["stmt"]["form"] if c["fn"] == "gefe" else "cmp-" + c["ev"]["kind"]) for c in obs.get("calls", [])))
+        forms = sorted(set("rec:" + (c["stmt"]["form"] if c["fn"] == "gefe" else c["fn"] + "-" + c["ev"]["kind"] + ("/" + c["ref"]["kind"] if c["fn"] == "ms" else "")) for c in obs.get("calls", [])))
         return t + ["ref:" + case["sub"], "ref-hits:%d" % sum(obs.get("hits", []))] + forms + (["rec-skipped"] if obs.get("calls_skipped") else [])
     if case["kind"] == "fn":
         t.append("how:" + case["how"])
